@@ -44,14 +44,14 @@ def run(tier, seed):
     chk = Check('C18', tier, seed, 'exploration')
     rng = random.Random(seed * 7919 + 18)
     quick = tier != 'thorough'
-    items = edge.edge_programs(rng, 300 if quick else 6000)
+    items = edge.edge_programs(rng, 300 if quick else 1500)
     items += edge.cross_programs(rng, 450 if quick else None)
-    g_items, _ = c01.gen_items(rng, 300 if quick else 5000, c01.FEATURES | {'yield', 'end', 'raw'})
+    g_items, _ = c01.gen_items(rng, 300 if quick else 1200, c01.FEATURES | {'yield', 'end', 'raw'})
     items += [(n, s, a, False) for n, s, a in g_items]
     for fam, fn in (('case', lambda s: genprog.gen_case_program(s, False)[1]), ('wait', lambda s: genprog.gen_wait_program(s)[1]),
                     ('zp', lambda s: genprog.gen_zp_program(s)[1]), ('pair', lambda s: genprog.gen_pair_program(s)[1]),
                     ('expr', lambda s: genprog.gen_expr_program(s, wide=True)[1]), ('macro', lambda s: genprog.gen_macro_program(s)[1])):
-        for i in range(40 if quick else 600):
+        for i in range(40 if quick else 160):
             s = rng.randrange(1 << 30)
             items.append(('%s:%d' % (fam, s), fn(s), ['-O1'], False))
     for n, s, a in runner.corpus_programs(('example', 'ok', 'fail')):
